@@ -86,6 +86,9 @@ func vhSessions(nsess, nadv0, kind int) []*vhSess {
 		if i == 2 {
 			p.VRFName = "red"
 		}
+		if i == 1 && kind == 2 {
+			p.VRFName = "Red" // VRF names are case sensitive: a second VRF, same ASN and router id
+		}
 		s := &vhSess{params: p}
 		n := 1
 		if i == 0 {
